@@ -79,8 +79,17 @@ impl WalArchiver {
             self.compression_level,
         )?;
 
+        #[cfg(feature = "verif-hooks")]
+        if crate::verif_hooks::fault("wa.write", log_id) {
+            return Err(std::io::Error::new(
+                std::io::ErrorKind::Other,
+                "injected archive write fault",
+            ));
+        }
         // Write archive to file
         let archive_path = archive.write_to_file(&self.archive_dir)?;
+        #[cfg(feature = "verif-hooks")]
+        crate::verif_hooks::point("wa.archived", log_id);
 
         info!(
             target: "wal_archiver::archive_log",
